@@ -15,6 +15,7 @@ package main
 //	race      the same schedules in a child process built with -race (supporting evidence only).
 import (
 	"bytes"
+	"context"
 	"fmt"
 	"os"
 	"os/exec"
@@ -39,6 +40,10 @@ type tagged struct {
 }
 
 const bound = 3 * time.Second
+
+// hangBound is the bound for the two schedules that are known to hang (F53, F13): they are stuck
+// states of the LTS (nothing is enabled), so waiting longer cannot change the outcome.
+const hangBound = 700 * time.Millisecond
 
 func main() {
 	if len(os.Args) > 1 && os.Args[1] == "-racechild" {
@@ -235,7 +240,9 @@ func leakedFuncs() string {
 	return strings.Join(fs, ";")
 }
 
-func withBound(f func()) (ok bool, panicMsg string) {
+func withBound(f func()) (ok bool, panicMsg string) { return within(bound, f) }
+
+func within(d time.Duration, f func()) (ok bool, panicMsg string) {
 	done := make(chan string, 1)
 	go func() {
 		defer func() {
@@ -249,7 +256,7 @@ func withBound(f func()) (ok bool, panicMsg string) {
 	select {
 	case m := <-done:
 		return true, m
-	case <-time.After(bound):
+	case <-time.After(d):
 		return false, ""
 	}
 }
@@ -343,6 +350,20 @@ func postCase(seed uint64, posters, m, q, keys int) string {
 			}
 		}(g, kinds)
 	}
+	// terminal queries issued concurrently (replies solicited, unsolicited and repeated): the
+	// requesters and the input goroutine meet on the hand-off channels
+	qdone := make(chan struct{})
+	nq := rng.Fork(777).Intn(4)
+	go func() {
+		defer close(qdone)
+		for i := 0; i < nq; i++ {
+			vx.CursorPosition()
+			ctx, cancel := context.WithTimeout(context.Background(), 2*time.Millisecond)
+			vx.ClipboardPop(ctx)
+			cancel()
+			fc.InjectString("\x1b[8;24;80t\x1b[8;24;80t\x1b]10;rgb:0000/0000/0000\x07\x1b]10;rgb:0000/0000/0000\x07\x1b]4;1;rgb:0000/0000/0000\x07\x1b[7;7R")
+		}
+	}()
 	// terminal input concurrently
 	wg.Add(1)
 	go func() {
@@ -355,6 +376,7 @@ func postCase(seed uint64, posters, m, q, keys int) string {
 		}
 	}()
 	postersDone, _ := withBound(wg.Wait)
+	queriesDone, _ := withBound(func() { <-qdone })
 	// let the consumer drain: wait until the queue is empty and input consumed
 	deadline := time.Now().Add(bound)
 	for time.Now().Before(deadline) {
@@ -392,7 +414,7 @@ func postCase(seed uint64, posters, m, q, keys int) string {
 	}
 	leak := waitGoroutines(base, time.Second)
 	var sb strings.Builder
-	fmt.Fprintf(&sb, "posters=%v close=%v panic=%q leak=%d plans=%s recv=%s", postersDone, closeOK, pmsg, leak, strings.Join(plans, ","), joinOr(recv))
+	fmt.Fprintf(&sb, "posters=%v queries=%v close=%v panic=%q leak=%d plans=%s recv=%s", postersDone, queriesDone, closeOK, pmsg, leak, strings.Join(plans, ","), joinOr(recv))
 	if leak > 0 {
 		fmt.Fprintf(&sb, " leaked=%s", strings.ReplaceAll(leakedFuncs(), " ", "_"))
 	}
@@ -671,7 +693,7 @@ func fullCloseCase(seed uint64, q, keys int) string {
 	}
 	fc.InjectString(strings.Repeat("k", keys))
 	time.Sleep(5 * time.Millisecond)
-	closeOK, pmsg := withBound(vx.Close)
+	closeOK, pmsg := within(hangBound, vx.Close)
 	res := "close-ok"
 	if !closeOK {
 		res = "close-hang"
@@ -724,7 +746,7 @@ func sigCloseCase(seed uint64, keys int) string {
 	res := "quit-ok"
 	select {
 	case <-vx.VerifC03QuitChan():
-	case <-time.After(bound):
+	case <-time.After(hangBound):
 		res = "quit-hang"
 	}
 	close(stop)
